@@ -68,6 +68,16 @@ CLAIMED = {
         note=STATIC_NOTE + 'Prefix parts are letter strings; suffixes are base+offset integers; bounded to the '
              'enumerated patterns of offsets and widths (the code is uniform in the values).',
         ref='DESIGN.md section 4 C18'),
+    'C19': dict(
+        technique='abstract interpretation with uninterpreted reactions; np.nanargmin modelled as an uninterpreted '
+                  'arg-min that keeps its candidate list (axis check); ordering-oracle enumeration for the energy span',
+        text='Decides that every tabulated phase-diagram entry is the reaction\'s delta G/RT at that grid point divided '
+             'by its normalisation factor (times RT iff units), that the arg-min runs over the reactions at each grid '
+             'point in both the 1-D and 2-D scans (1-3 reactions, 1-4 x 1-3 grids), and, for every ordering of the state '
+             'energies of sequences of 1-3 steps with/without transition states and network paths of 2-4 states, that '
+             'the energy span is highest minus lowest plus last minus first iff the highest state precedes the lowest.',
+        note=STATIC_NOTE + 'NaN handling and ties are not decided; bounded to the enumerated sizes (code uniform in them).',
+        ref='DESIGN.md section 4 C19'),
     'C20': dict(
         technique='abstract interpretation of the EOS getters into rational normal forms; polynomial identity of the '
                   'cubic handed to np.roots',
